@@ -297,7 +297,7 @@ def _schema_checked(an, fn, sp, u, holds_p, p, starts):
     return True
 
 
-def check_adopted(ctx, rule_prefix="link", schema_rule=None):
+def check_adopted(ctx, rule_prefix="link", schema_rule=None, validated_rule=None):
     """A configuration object handed in by the caller (assigned to a sub-configuration field, appended to a list of
     configurations) is adopted: _parent (and _key; _container for list items) are set before it is stored / returned."""
     an, model = ctx.an, ctx.model
@@ -370,6 +370,7 @@ def check_adopted(ctx, rule_prefix="link", schema_rule=None):
                 return out_
             # uses: stored into _data, or handed back (proxy validators)
             uses = []
+            used_of = {}
             for n in g.nodes:
                 if n not in sp.normal:
                     continue
@@ -379,18 +380,43 @@ def check_adopted(ctx, rule_prefix="link", schema_rule=None):
                         uses.append(("stored", n))
                 if n.kind == "return" and fn.name == "_validate" and n.ast.value is not None and starts_from_p(n.ast.value, n):
                     uses.append(("handed to the container", n))
+                if n.kind == "return" and fn.name == "_validate" and isinstance(n.ast.value, ast.Tuple):
+                    # a (key, value) pair: the component that can be the caller's configuration
+                    for el in n.ast.value.elts:
+                        if isinstance(el, ast.Name) and starts_from_p(el, n):
+                            uses.append(("handed to the container", n))
+                            used_of[id(n)] = el
             wanted = ["_parent", "_key"] + (["_container"] if fn.name == "_validate" else [])
             for what, u in uses:
                 nsites += 1
+                if validated_rule is not None:
+                    if fn.name != "_validate":
+                        continue        # _set_value: the configuration keeps the values it validated itself (C11 speaks of list / dict items)
+                    used_ = used_of.get(id(u), u.ast.value)
+                    vnodes = {m for m in g.nodes if m.kind == "call" and isinstance(m.ast.func, ast.Attribute) and m.ast.func.attr == "validate" and not m.ast.args
+                              and isinstance(m.ast.func.value, ast.Name) and (holds_p(m.ast.func.value, m) or starts_from_p(m.ast.func.value, m))}
+                    bad_ = None
+                    for st in starts_from_p(used_, u) or [g.entry]:
+                        before = st is not g.entry and g.path(g.entry, lambda x, st=st: x is st, may_raise=lambda x: False,
+                                                              stop=lambda x, st=st: x in vnodes and x is not st, edge_filter=sp.edge_ok) is None
+                        if before:
+                            continue
+                        bad_ = bad_ or g.path(st, lambda x, u=u: x is u, may_raise=lambda x: False, from_successors=st is not g.entry,
+                                              stop=lambda x: x in vnodes and x is not u, edge_filter=sp.edge_ok)
+                    ctx.ob(validated_rule, fn, "%s.validate() before the configuration is %s" % (p, what), bad_ is None,
+                           "a configuration object handed in is validated (required fields, validators) before the container takes it" if bad_ is None else
+                           "%s takes a configuration object without validating it: an item with an unset required field or a failing validator "
+                           "enters the container, and a later validate() of the owner does not look into it" % fn.qualname, node=u)
+                    continue
                 if schema_rule is not None:
-                    okc = _schema_checked(an, fn, sp, u, holds_p, p, starts_from_p(u.ast.value, u))
+                    okc = _schema_checked(an, fn, sp, u, holds_p, p, starts_from_p(used_of.get(id(u), u.ast.value), u))
                     ctx.ob(schema_rule, fn, "%s._schema tested before the configuration is %s" % (p, what), okc,
                            "a configuration handed in is %s only when it was created from the schema of the receiving field" % what if okc else
                            "a configuration created from any schema is %s: the values read below this field were validated by another "
                            "schema's fields, not by the ones declared here" % what, node=u)
                     continue
                 for attr in wanted:
-                    used = u.ast.value
+                    used = used_of.get(id(u), u.ast.value)
                     links = {m for m in g.nodes if m.kind == "assign" and isinstance(m.ast, ast.Assign) and any(
                         isinstance(t, ast.Attribute) and t.attr == attr and (holds_p(t.value, m) or (
                             isinstance(t.value, ast.Name) and isinstance(used, ast.Name) and t.value.id == used.id and starts_from_p(t.value, m)))
